@@ -45,6 +45,7 @@ FAMILIES = {
     },
     "ckpt": {
         "family": "ckpt",
+        "timed": True,   # observations depend on wall-clock waits: a failing case is re-executed by itself before it counts
         "coq_modules": ["Feed"],
         "in_type": "list (string * N)", "obs_type": "ckpt_runs",
         "corr": "chk_ckpt_runs", "chk": "chk_ckpt_runs", "model": "(fun x : list (string * N) => x)",
@@ -53,6 +54,7 @@ FAMILIES = {
     },
     "life": {
         "family": "life",
+        "timed": True,   # observations depend on wall-clock waits: a failing case is re-executed by itself before it counts
         "coq_modules": ["Life"],
         "in_type": "(bool * list lop)", "obs_type": "list lobs",
         "corr": "life_corr_ok", "chk": "chk_life", "model": "lrun", "model_chk": True, "model_chk_fn": "(fun chk t => chk (fst t, lrun (fst t)))",
@@ -77,6 +79,7 @@ FAMILIES = {
     },
     "ttl": {
         "family": "ttl",
+        "timed": True,   # observations depend on wall-clock waits: a failing case is re-executed by itself before it counts
         "coq_modules": ["Json", "Crc", "Hlc", "Kv", "Store", "Trace", "Corr"],
         "in_type": "scase", "obs_type": "ttl_run",
         "corr": "ttl_chk_ok", "chk": "ttl_chk_ok", "model": "ttl_model",
